@@ -61,6 +61,18 @@ claimed = {
   text="Decides structural clauses of the glyf/loca statement: (sizeagree) (*Glyph).encodeLen equals the number of bytes (*Glyph).append emits on every path (nil glyph, simple, composite with/without instructions, alignment padding); (prefixsum) Glyphs.Encode builds loca offsets as prefix sums of encodeLen() of the glyphs it then appends in the same order; (locapair) encodeLoca picks the short format only under a bound T with T/2 <= 0xFFFF, stores offset/2 in the branch announcing format 0 and plain offsets in the branch announcing format 1, and decodeLoca multiplies by 2 exactly in case 0 and handles exactly these formats; (readonly) Components/FixComponents/encodeLen/append/Encode never write memory reachable from the glyphs they are called on. Level 'other'.",
   note="Trusted: go/types, go/ssa, effect summaries. Not covered yet: checked-before-use of loca/glyph/flag data (planned with the taint engine), flag-mask agreement between removePadding and SimpleGlyph.Decode, agreement with an independent decoder.",
   ref="DESIGN.md §3 E8, §4 C11"),
+ "C12": dict(
+  technique="static reader/writer layout agreement: field-pairing relations extracted from decoder and encoder syntax (wire struct layouts from go/types), flag-bit pairing, big-endian shift rule, field coverage",
+  engine="codecpair",
+  text="Decides the layout clauses of 'header and metrics tables survive encoding and decoding exactly' for head, OS/2, post, maxp and hhea/hmtx headers: (fieldpair) the reader's relation 'application field <- stream bytes' equals the writer's relation 'stream bytes <- application field' for each of 80 fields, stream offsets being computed from the wire structs' layout (encoding/binary rules evaluated on go/types) or from byte-window positions; (bitpair) for each of 14 boolean fields the bits the writer sets are exactly the bits the reader expects; (fieldcover) every field of each Info struct takes part in a pairing; (bigendian) every multi-byte read/write in these packages uses shifts 8·(n-1-k) with operands wide enough for their shift (the two-halves layout of the code page range is a reviewed entry whose reader/writer byte-lane agreement is re-checked); (wiresize) announced table lengths equal wire struct sizes. A swapped, dropped or mis-sized field falsifies the round trip for every value of that field. Level 'other'.",
+  note="Trusted: go/types, the syntactic dependency extraction (flow-insensitive within a function; loops, i.e. variable-length parts, are not followed), 5 reviewed entries. Not covered: derived-field definitions and query methods, numberOfHMetrics compression, caret-slope rational approximation, clamping of derived values — value-level.",
+  ref="DESIGN.md §3 E9, §4 C12"),
+ "C03": dict(
+  technique="static count/emit agreement, CFG ordering (must-precede), guard and natural-loop rules on go/ssa for header.Write / header.Read; wire struct sizes from go/types",
+  engine="containerrules",
+  text="Decides structural lines of the container statement on header.Write/Read: (countemit) the record array, NumTables and first offset derive from the length of the filtered name list actually written; (order) clearChecksum precedes every checksum computation, the directory is sorted by tag before it is serialised, patchChecksum follows all checksums and precedes the first write; (align) offsets advance by lengths rounded to 4 and padding uses modulus 4; (patchguard) the in-place patch touches head[8:12] only and is guarded by len(head) >= 12; (wiresize) offsets = 12 and rawRecord = 16 bytes; (readback) every directory record header.Read validates is stored — no path through the directory loop skips the store; plus mapdet/sortfirst/bigendian on the same functions. Level 'other'.",
+  note="Trusted: go/types, go/ssa. Not covered: arithmetic of the checksum and of searchRange/entrySelector/rangeShift, agreement with an independent parser — value-level.",
+  ref="DESIGN.md §4 C03"),
 }
 
 pending_reason = "not claimed yet: the engines this property needs are still being built (DESIGN.md §9 build order); no check is registered until it runs exact on the unchanged tree"
@@ -96,6 +108,8 @@ engines = [
  {"name": "nameslots", "path": "sfntlint/c20.go", "serves_properties": ["C20"], "kind_free_text": "write-once / used-set discipline, .notdef ordering, PostScript-name regexp evaluation (E12)"},
  {"name": "shaperules", "path": "sfntlint/c07.go, sfntlint/c06.go, sfntlint/panicreach.go", "serves_properties": ["C06", "C07"], "kind_free_text": "slice-alias, scratch claim/release, nested-stack typestate, first-match shape, panic reachability (E13, E4, typestate)"},
  {"name": "sizeagree", "path": "sfntlint/sizeagree.go, sfntlint/twins.go, sfntlint/c08.go, sfntlint/c11.go", "serves_properties": ["C08", "C11", "C01"], "kind_free_text": "symbolic size algebra for paired length/encode functions, twin formulas, dead overflow guards, loca writer/reader agreement (E8)"},
+ {"name": "codecpair", "path": "sfntlint/codecpair.go, sfntlint/fieldpair.go, sfntlint/bitpair.go, sfntlint/c12.go", "serves_properties": ["C12", "C03"], "kind_free_text": "big-endian rule, field/flag pairing between decoder and encoder, field coverage, wire sizes (E9)"},
+ {"name": "containerrules", "path": "sfntlint/c03.go", "serves_properties": ["C03"], "kind_free_text": "count/emit, ordering, alignment, patch guard, read-back rules for the sfnt container"},
  {"name": "mapdet", "path": "sfntlint/mapdet.go, sfntlint/props_det.go", "serves_properties": ["C01", "C07", "C08", "C09", "C13", "C15", "C20"], "kind_free_text": "order-sensitivity analysis of map iteration, clock and scheduling sources (E5)"},
 ]
 for e in engines:
